@@ -276,22 +276,23 @@ type view struct {
 
 const maxAmount = int64(1) << 30
 
-// project returns the view of s; ok=false if a number does not fit the specification's integers.
+// project returns the view of s.  A number that does not fit the specification's integers is
+// clamped to 2^30: no run the specification can explain produces one (the universe holds less than
+// 2^27 in total), so a clamped number always shows up as a difference, never as a dropped scenario.
 func (u *universe) project(s snap) (view, bool) {
 	v := view{B: make([]int64, NA), N: make([]int64, NA), C: make([]int, NA), S: make([]int, NA), X: make([]int, NA)}
-	ok := true
 	for h, a := range s {
 		id, in := u.byHash[h]
 		if !in {
 			continue
 		}
-		if !a.bal.IsInt64() || a.bal.Int64() >= maxAmount || a.nonce >= uint64(maxAmount) {
-			ok = false
-			continue
+		bal := maxAmount
+		if a.bal.IsInt64() && a.bal.Int64() < maxAmount && a.bal.Sign() >= 0 {
+			bal = a.bal.Int64()
 		}
-		v.B[id-1], v.N[id-1], v.C[id-1], v.S[id-1], v.X[id-1] = a.bal.Int64(), int64(a.nonce), u.codeID(a.code), u.rootID(a.root), 1
+		v.B[id-1], v.N[id-1], v.C[id-1], v.S[id-1], v.X[id-1] = bal, clampU(a.nonce), u.codeID(a.code), u.rootID(a.root), 1
 	}
-	return v, ok
+	return v, true
 }
 
 // outside compares the accounts that are NOT slots of the universe in two snaps: the sum of the
